@@ -3,6 +3,7 @@ CONSTANTS
   ShtabBreaksDefaults = {"A", "B"}
   ClearOnError = FALSE
   Full = FALSE
+  Help = FALSE
   Emit = FALSE
 INVARIANT HistoryIndependentStrict
 CHECK_DEADLOCK FALSE
